@@ -134,6 +134,30 @@ func (r *Decoder) captureObject() (rdf.ObjectValue, *cursorio.TextOffsetRange, e
 	}
 }
 
+// skipToStatement consumes white space and comments up to the first rune of the next statement, which is left unread.
+func (r *Decoder) skipToStatement() error {
+	for {
+		r0, err := r.buf.NextRune()
+		if err != nil {
+			return err
+		}
+
+		switch {
+		case r0.Rune == '#':
+			err = r.drainLine(cursorio.DecodedRuneList{r0})
+			if err != nil {
+				return err
+			}
+		case unicode.IsSpace(r0.Rune):
+			r.commit(r0.AsDecodedRunes())
+		default:
+			r.buf.BacktrackRunes(r0)
+
+			return nil
+		}
+	}
+}
+
 func (r *Decoder) drainLine(uncommitted cursorio.DecodedRuneList) error {
 	for {
 		r0, err := r.buf.NextRune()
